@@ -198,6 +198,10 @@ func skolemize(n *sx_, positive bool, fresh func(sort string) string, decls *[]s
 // instantiate weakens positive single-variable Int foralls into finite conjunctions over cands.
 // Returns nil when the formula contains no such quantifier.
 func instantiate(n *sx_, positive bool, cands map[string][]*sx_, did *bool) *sx_ {
+	return instantiateD(n, positive, cands, did, false)
+}
+
+func instantiateD(n *sx_, positive bool, cands map[string][]*sx_, did *bool, deepInstantiate bool) *sx_ {
 	if !n.isList() {
 		return n
 	}
@@ -208,7 +212,11 @@ func instantiate(n *sx_, positive bool, cands map[string][]*sx_, did *bool) *sx_
 			out := &sx_{kids: []*sx_{{atom: "and"}, {atom: "true"}}}
 			for _, c := range cands[sort] {
 				inst := substAtom(body, v, c)
-				// nested quantifiers inside the instance are left as they are
+				// directly nested universal quantifiers are instantiated with the same candidates
+				// (only for lemma instances: see deepInstantiate)
+				if deepInstantiate {
+					inst = instantiateD(inst, positive, cands, did, true)
+				}
 				out.kids = append(out.kids, inst)
 			}
 			return out
@@ -219,16 +227,16 @@ func instantiate(n *sx_, positive bool, cands map[string][]*sx_, did *bool) *sx_
 	case "and", "or":
 		out := &sx_{kids: []*sx_{n.kids[0]}}
 		for _, k := range n.kids[1:] {
-			out.kids = append(out.kids, instantiate(k, positive, cands, did))
+			out.kids = append(out.kids, instantiateD(k, positive, cands, did, deepInstantiate))
 		}
 		return out
 	case "not":
 		if len(n.kids) == 2 {
-			return &sx_{kids: []*sx_{n.kids[0], instantiate(n.kids[1], !positive, cands, did)}}
+			return &sx_{kids: []*sx_{n.kids[0], instantiateD(n.kids[1], !positive, cands, did, deepInstantiate)}}
 		}
 	case "=>":
 		if len(n.kids) == 3 {
-			return &sx_{kids: []*sx_{n.kids[0], instantiate(n.kids[1], !positive, cands, did), instantiate(n.kids[2], positive, cands, did)}}
+			return &sx_{kids: []*sx_{n.kids[0], instantiateD(n.kids[1], !positive, cands, did, deepInstantiate), instantiateD(n.kids[2], positive, cands, did, deepInstantiate)}}
 		}
 	}
 	return n
@@ -318,6 +326,16 @@ func indexTerms(n *sx_, names map[string]bool, sorts map[string]string, out map[
 						out[sort] = map[string]*sx_{}
 					}
 					out[sort][s] = idx
+					// slices are addressed as (+ off k): the relative index k is a candidate as well
+					if sort == "Int" && idx.head() == "+" && len(idx.kids) == 3 {
+						for _, part := range idx.kids[1:] {
+							if mentionsAny(part, names) && !hasBinder(part) {
+								if _, lit := parseSMTIntStrict(part.String()); !lit {
+									out[sort][part.String()] = part
+								}
+							}
+						}
+					}
 				}
 			}
 		}
@@ -404,7 +422,7 @@ func expandExists(n *sx_, positive bool, cands map[string][]*sx_) *sx_ {
 }
 
 // preInstantiate returns (declarations, extra assertion lines, rewritten negated goal).
-func preInstantiate(lines []string, pc, goal string, nameHint int, baseSorts map[string]string) (decls []string, extra []string, negGoal string) {
+func preInstantiate(lines []string, pc, goal string, nameHint int, baseSorts map[string]string, groundGoalHyps ...string) (decls []string, extra []string, negGoal string) {
 	g := parseSexpr(goal)
 	if g == nil {
 		return nil, nil, sx("assert", not(goal))
@@ -420,8 +438,13 @@ func preInstantiate(lines []string, pc, goal string, nameHint int, baseSorts map
 	}
 	g2 := skolemize(g, true, fresh, &sks)
 	negGoal = "(assert (not " + g2.String() + "))"
-	if len(sks) == 0 {
+	groundGoal := len(sks) == 0
+	if groundGoal && (lines == nil || len(groundGoalHyps) == 0 || !strings.Contains(goal, "(select ")) {
 		return nil, nil, negGoal
+	}
+	if groundGoal {
+		// for quantifier-free goals only the lemma instances are instantiated further
+		lines = append(append([]string{}, declLines(lines)...), groundGoalHyps...)
 	}
 	for _, s := range sks {
 		decls = append(decls, fmt.Sprintf("(declare-const %s %s)", s, skSort[s]))
@@ -456,7 +479,48 @@ func preInstantiate(lines []string, pc, goal string, nameHint int, baseSorts map
 		cands[skSort[s]][s] = &sx_{atom: s}
 	}
 	indexTerms(g2, names, sorts, cands)
+	if groundGoal {
+		// a quantifier-free goal: its own (non-literal) index terms are the instantiation points
+		all := map[string]bool{}
+		collectAtoms(g2, all)
+		tmp := map[string]map[string]*sx_{}
+		indexTerms(g2, all, sorts, tmp)
+		n := 0
+		var ks []string
+		for k := range tmp["Int"] {
+			ks = append(ks, k)
+		}
+		sortKeys(ks)
+		for _, k := range ks {
+			if _, lit := parseSMTIntStrict(k); lit {
+				continue
+			}
+			if cands["Int"] == nil {
+				cands["Int"] = map[string]*sx_{}
+			}
+			cands["Int"][k] = tmp["Int"][k]
+			n++
+			if n >= 6 {
+				break
+			}
+		}
+		if n == 0 {
+			return nil, nil, negGoal
+		}
+	}
+	// neighbours of integer skolems (predecessor): typical for inductive arguments
+	for _, s := range sks {
+		if skSort[s] == "Int" {
+			t := parseSexpr("(- " + s + " 1)")
+			cands["Int"][t.String()] = t
+		}
+	}
 	var hyps []*sx_
+	deep := map[*sx_]bool{}
+	lemmaSet := map[string]bool{}
+	for _, l := range groundGoalHyps {
+		lemmaSet[l] = true
+	}
 	for _, l := range lines {
 		if !strings.HasPrefix(l, "(assert") || !strings.Contains(l, "(forall ((") {
 			continue
@@ -466,6 +530,9 @@ func preInstantiate(lines []string, pc, goal string, nameHint int, baseSorts map
 			continue
 		}
 		hyps = append(hyps, t.kids[1])
+		if lemmaSet[l] {
+			deep[t.kids[1]] = true
+		}
 	}
 	seenInst := map[string]bool{}
 	done := map[string]bool{}
@@ -514,12 +581,12 @@ func preInstantiate(lines []string, pc, goal string, nameHint int, baseSorts map
 		roundWit = next
 		for _, h := range hyps {
 			did := false
-			inst := instantiate(h, true, cs, &did)
+			inst := instantiateD(h, true, cs, &did, deep[h])
 			if !did {
 				continue
 			}
 			s := "(assert " + inst.String() + ")"
-			if seenInst[s] || len(s) > 200000 {
+			if seenInst[s] || len(s) > 60000 {
 				continue
 			}
 			seenInst[s] = true
@@ -567,4 +634,24 @@ func sortKeys(keys []string) {
 		}
 		return keys[i] < keys[j]
 	})
+}
+
+func collectAtoms(n *sx_, out map[string]bool) {
+	if !n.isList() {
+		out[n.atom] = true
+		return
+	}
+	for _, k := range n.kids {
+		collectAtoms(k, out)
+	}
+}
+
+func declLines(lines []string) []string {
+	var out []string
+	for _, l := range lines {
+		if strings.HasPrefix(l, "(declare-const ") {
+			out = append(out, l)
+		}
+	}
+	return out
 }
